@@ -10,7 +10,7 @@
    replaceBlobber's killed/shut-down branch drops the blobber allocation without releasing the
    killed blobber's Allocated and offer ([ss_fired13]). *)
 From Coq Require Import ZArith List Bool.
-From ZC Require Import Model.F64 Model.Storage Proof.StorageUtil Proof.StorageFrame Proof.StorageOffers Proof.StorageWitness.
+From ZC Require Import Model.F64 Model.Storage Proof.StorageUtil Proof.StorageFrame Proof.StorageOffers Proof.StorageEnt Proof.StorageWitness.
 Import ListNotations.
 Open Scope Z_scope.
 
@@ -45,6 +45,37 @@ Theorem C13_history_partial :
   forall c ts s, st_c13 s -> ss_run_ok13 c s ts -> st_c13 (fst (ss_run c s ts)).
 Proof. exact ss_run_c13. Qed.
 Print Assumptions C13_history_partial.
+
+(* Worlds.  The correspondence runs [ss_run_w]: a configuration with [cf_ent] describes an
+   enterprise world (electra active from the first round, enterprise blobbers, every allocation
+   request with is_enterprise and valid auth tickets) in which new_allocation_request creates an
+   allocation without challenge pool, update_allocation_request settles the used part of the period
+   before extending (payCostForDtuForEnterpriseAllocation), finalize / cancel run finishAllocation's
+   enterprise branch (offers released, cost paid, Allocated released), commit_connection and
+   free_allocation_request are refused; every other configuration runs the standard operations. *)
+Theorem C13_standard_world :
+  forall c ts s, cf_ent c = false -> ss_run_w c s ts = ss_run c s ts.
+Proof. exact ss_run_w_std. Qed.
+Print Assumptions C13_standard_world.
+
+(* The invariant in every world, enterprise operations included (same exclusion as above). *)
+Theorem C13_step_world_partial :
+  forall c s now round o s',
+  st_c13 s -> ss_op_wf13 s o -> ss_apply_w c s now round o = Some s' -> ss_fired13 s o = false -> st_c13 s'.
+Proof. exact ss_apply_w_c13. Qed.
+Print Assumptions C13_step_world_partial.
+
+Theorem C13_history_world_partial :
+  forall c ts s, st_c13 s -> ss_run_ok13_w c s ts -> st_c13 (fst (ss_run_w c s ts)).
+Proof. exact ss_run_w_c13. Qed.
+Print Assumptions C13_history_world_partial.
+
+(* closing an enterprise allocation releases every offer and every size, whatever the cost is *)
+Theorem C13_enterprise_close :
+  forall c s now a s',
+  st_c13 s -> ss_find_alloc (al_id a) (st_allocs s) = Some a -> ss_close_ent c s now a = Some s' -> st_c13 s'.
+Proof. exact ss_close_ent_c13. Qed.
+Print Assumptions C13_enterprise_close.
 
 Theorem C13_initial :
   forall s, st_allocs s = [] -> (forall b, In b (st_blobbers s) -> bl_allocd b = 0 /\ bl_offers b = 0) -> st_c13 s.
